@@ -69,6 +69,21 @@ inductive Plugin where
   /-- any other plugin (vertex / edge r-tree, haversine load balancer): its effect on each query it is
   applied to, keyed by the query's compact JSON text -/
   | table (t : List (String × TableEntry))
+  /-- user-defined plugin (harness `UserSplit`): a query carrying `key` with a non-empty array is replaced by
+  one child per element — the query minus `key`, overlaid with the element -/
+  | userSplit (key : String)
+  /-- user-defined plugin (harness `UserFailOn`): fails on a query carrying `marker` -/
+  | userFailOn (marker : String)
+  /-- user-defined plugin (harness `UserBreaker`): breaks the query-state invariant when the query says so under
+  `key` (`"scalar"`, `"null"`, `"nested"`, `"empty"`, `"mixed"`) -/
+  | userBreaker (key : String)
+
+/-- the plugins that map an object to an object or a non-empty array of objects by construction (everything
+but recorded tables, whose behaviour is data, and the invariant breaker) -/
+def Plugin.wellBehaved : Plugin → Bool
+  | .table _ => false
+  | .userBreaker _ => false
+  | _ => true
 
 def lookupStr {β : Type} (t : List (String × β)) (k : String) : Option β :=
   match t.find? (fun p => p.1 == k) with
@@ -108,6 +123,37 @@ def customWeight : Plugin → Json → Except PErr Nat
     | _ => .error { kind := "QueryFieldHasInvalidType" }
   | _, _ => .error { kind := "InternalError" }
 
+/-- one child of `UserSplit`: an object element is merged key by key, anything else goes under `"alt"` -/
+def splitChild (base : List (String × Json)) : Json → Json
+  | .obj o => .obj (GridSearch.mergeKv base o)
+  | v => .obj (Json.insertKv base "alt" v)
+
+/-- `json!(7)` -/
+def seven : Json := .num "7" 4619567317775286272
+
+/-- the user-defined plugins of the harness (plain total functions: they index nothing) -/
+def userT : Plugin → Json → Except PErr Json
+  | .userSplit key, q =>
+    match q with
+    | .obj kvs =>
+      match Json.lookup kvs key with
+      | some (.arr (a :: r)) => .ok (.arr ((a :: r).map (splitChild (Json.shiftRemoveKv kvs key))))
+      | _ => .ok q
+    | _ => .ok q
+  | .userFailOn marker, q =>
+    match q.get? marker with
+    | some _ => .error { kind := "InputPluginFailed" }
+    | none => .ok q
+  | .userBreaker key, q =>
+    match q.get? key with
+    | some (.str "scalar") => .ok seven
+    | some (.str "null") => .ok .null
+    | some (.str "nested") => .ok (.arr [.arr [q]])
+    | some (.str "empty") => .ok (.arr [])
+    | some (.str "mixed") => .ok (.arr [q, .arr [q]])
+    | _ => .ok q
+  | _, _ => .error { kind := "InternalError" }
+
 /-- `InputPlugin::process` of each plugin, as the code: value left in the query, or the error -/
 def processO : Plugin → Json → Outcome (Except PErr Json)
   | .gridSearch, q =>
@@ -137,6 +183,9 @@ def processO : Plugin → Json → Outcome (Except PErr Json)
     | some (.ok q') => .ok (.ok q')
     | some (.err k l) => .ok (.error { kind := k, left := some l })
     | none => .ok (.error { kind := "table-miss" })
+  | .userSplit key, q => .ok (userT (.userSplit key) q)
+  | .userFailOn m, q => .ok (userT (.userFailOn m) q)
+  | .userBreaker key, q => .ok (userT (.userBreaker key) q)
 
 /-- the total function `process` computes -/
 def processT : Plugin → Json → Except PErr Json
@@ -164,6 +213,9 @@ def processT : Plugin → Json → Except PErr Json
     | some (.ok q') => .ok q'
     | some (.err k l) => .error { kind := k, left := some l }
     | none => .error { kind := "table-miss" }
+  | .userSplit key, q => userT (.userSplit key) q
+  | .userFailOn m, q => userT (.userFailOn m) q
+  | .userBreaker key, q => userT (.userBreaker key) q
 
 /-! ### `json_array_op` / `apply_input_plugins` over partial plugins -/
 
